@@ -133,7 +133,7 @@ def run_drill_types(case, rec):
         gc.collect()
 
 
-DRILL_OPS = ["update", "update-longer", "add-data", "remove-data", "rename-data", "remove-hole", "new-table", "flag"]
+DRILL_OPS = ["update", "update-longer", "add-data", "remove-data", "rename-data", "remove-hole", "new-table", "flag", "copy-log-to-other-hole"]
 
 
 def run_drill(case, rec):
@@ -221,6 +221,12 @@ def run_drill(case, rec):
             elif op == "flag":
                 target.get_data("Au")[0].public = False
                 target.visible = False
+            elif op == "copy-log-to-other-hole":
+                # a log of this hole is copied onto a neighbour that has a log of the same name: the neighbour's own log stays
+                # what it was (same entity, same values); whatever the copy adds is the copy's
+                other = [c for c in ws.get_entity("DH")[0].children if c.name == f"hole{(t + 1) % 4}"][0]
+                target.get_data("Au")[0].copy(parent=other)
+                other = None
         except Exception as exc:  # noqa: BLE001
             if not exc_origin(exc)[0]:
                 raise
